@@ -146,6 +146,7 @@ def run(prop, parts, tier, seed, note_rule, assumptions):
               if k.get("status") == "known" and k.get("property") == prop and "signature" in k}
     n_viol = 0
     rdir = os.path.join(cf.out_dir("replays"), prop)
+    shutil.rmtree(rdir, ignore_errors=True)
     for sig, occ in sorted(known.items()):
         if sig in listed:
             print(f"KNOWN-FINDING: property={prop} {listed[sig]['what']} (signature {sig}, {len(occ)} records)")
